@@ -55,7 +55,7 @@ EXT_SIGNATURES = {
     "numpy.dot": ["a", "b"], "numpy.outer": ["a", "b"], "numpy.multiply": ["x1", "x2"], "numpy.divide": ["x1", "x2"],
     "numpy.add": ["x1", "x2"], "numpy.subtract": ["x1", "x2"], "numpy.maximum": ["x1", "x2"], "numpy.minimum": ["x1", "x2"],
     "numpy.power": ["x1", "x2"], "numpy.where": ["condition", "x", "y"], "numpy.linspace": ["start", "stop", "num"],
-    "numpy.interp": ["x", "xp", "fp"], "numpy.fill_diagonal": ["a", "val"], "numpy.array": ["object"], "numpy.asarray": ["a"],
+    "numpy.interp": ["x", "xp", "fp"], "numpy.fill_diagonal": ["a", "val"], "numpy.array": ["object"], "numpy.asarray": ["a"], "numpy.asarray_chkfinite": ["a"],
     "numpy.zeros": ["shape"], "numpy.ones": ["shape"], "numpy.full": ["shape", "fill_value"], "numpy.sum": ["a", "axis"],
     "numpy.max": ["a", "axis"], "numpy.min": ["a", "axis"], "numpy.sort": ["a", "axis"], "numpy.unique": ["ar"],
     "numpy.abs": ["x"], "numpy.sqrt": ["x"], "numpy.exp": ["x"], "numpy.log": ["x"], "numpy.isfinite": ["x"], "numpy.isinf": ["x"],
@@ -2445,9 +2445,16 @@ class Interp:
                 return Sc(sym.Sym("$chunk:" + name))
             fr_save = self.frames
             return self.eval(m.globals[name], {})
+        mod2, _, name2 = mod.rpartition(".")
+        m2 = self.p.modules.get(mod2)
+        if m2 is not None and name2 in m2.globals and isinstance(m2.globals[name2], ast.Call):
+            # an attribute of an object built at module level (`logger = logging.getLogger(__name__)`; `logger.debug`)
+            holder = self.global_value(mod, node)
+            if isinstance(holder, ObjV) and holder.cls is None and holder.tag:
+                return self.attribute(holder, name, node, {})
         if tgt.split(".")[0] in ("numpy", "scipy", "sklearn", "matplotlib", "builtins", "warnings", "itertools",
                                  "operator", "copy", "bisect", "hopcroftkarp", "joblib", "math", "typing", "numbers",
-                                 "functools", "collections", "dataclasses"):
+                                 "functools", "collections", "dataclasses", "logging", "time"):
             if tgt in prims.TYPES:
                 return FuncV("prim", tgt)
             return FuncV("prim", tgt)
@@ -2747,6 +2754,11 @@ class Interp:
              ast.FloorDiv: lambda x, y: sym.fn("floor", sym.div(x, y)),
              ast.Mod: lambda x, y: sym.Opq("mod", (x, y), None),
              ast.BitAnd: lambda x, y: sym.And(x, y), ast.BitOr: lambda x, y: sym.Or(x, y)}.get(type(op))
+        if isinstance(op, ast.MatMult) and not isinstance(a, Sc) and not isinstance(b, Sc):
+            from . import prims
+            A_, B_ = (x if isinstance(x, Arr) else arrays.to_arr(x) for x in (a, b))
+            if isinstance(A_, Arr) and isinstance(B_, Arr) and A_.ndim <= 2 and B_.ndim <= 2:
+                return prims.dot(self, node, a, b)   # `@` on vectors / matrices is numpy.dot
         if f is None:
             return self.unknown("binop-" + type(op).__name__, node)
         if isinstance(op, ast.Pow):
